@@ -90,6 +90,9 @@ type ScriptCfg struct {
 	Auths []string `json:"auths,omitempty"`
 	// KeyOverride replaces configured keys: paasign | sess | sessenc | userenc -> value ("-" = leave the key out)
 	KeyOverride map[string]string `json:"keyOverride,omitempty"`
+	// SharedEnv: the gateway runs with the home and temporary directories that every other SharedEnv gateway of this
+	// run uses (several gateways on one machine); without it each gateway has directories of its own
+	SharedEnv bool `json:"sharedEnv,omitempty"`
 }
 
 func (c ScriptCfg) Key() string {
@@ -472,7 +475,13 @@ func (r *Runner) NewInst(cfg ScriptCfg) (*Inst, error) {
 			return nil, fmt.Errorf("unknown auth %q", a)
 		}
 	}
-	p, err := gw.Start(c, gw.StartOpts{Binary: r.BinGW, WorkDir: r.Work, NoHooks: cfg.NoHooks})
+	var extraEnv []string
+	if cfg.SharedEnv {
+		shared := filepath.Join(r.Work, "shared-env")
+		os.MkdirAll(filepath.Join(shared, "tmp"), 0700)
+		extraEnv = []string{"HOME=" + shared, "TMPDIR=" + filepath.Join(shared, "tmp")}
+	}
+	p, err := gw.Start(c, gw.StartOpts{Binary: r.BinGW, WorkDir: r.Work, NoHooks: cfg.NoHooks, ExtraEnv: extraEnv})
 	if err != nil {
 		return nil, err
 	}
